@@ -17,7 +17,7 @@ def check_earley(ctx, res):
         if 'build' in rec:
             continue
         if rec.get('timeout'):
-            res.violation('parse did not return (property: never a hang)', {'grammar': g, 'text': rec['text'], 'lexer': rec['lexer']}); continue
+            res.violation('parse did not return (property: never a hang)', {'grammar': g, 'start': rec.get('start_sym', 'start'), 'starts': rec.get('starts', ['start']), 'text': rec['text'], 'lexer': rec['lexer']}); continue
         if m is None or rec['ok']:
             continue
         if 'error' in m:
@@ -33,7 +33,7 @@ def check_earley(ctx, res):
         res.case(['c08', g, text, lexer], nontrivial=True,
                  sample={'grammar': g, 'text': text, 'lexer': lexer, 'error': rec['err'], 'pos': rec.get('pos'), 'expected': rec.get('expected')} if last > 0 and last < n else None)
         res.count('earley_%s_%s' % (lexer, rec['err']))
-        where = {'grammar': g, 'text': text, 'lexer': lexer, 'code': {k: rec.get(k) for k in ('err', 'pos', 'line', 'column', 'expected', 'token_type')}}
+        where = {'grammar': g, 'start': rec.get('start_sym', 'start'), 'starts': rec.get('starts', ['start']), 'text': text, 'lexer': lexer, 'code': {k: rec.get(k) for k in ('err', 'pos', 'line', 'column', 'expected', 'token_type')}}
         if last == n:
             want = {'err': 'UnexpectedEOF', 'expected': exp}
             if rec['err'] == 'UnexpectedToken' and rec.get('token_type') == '$END':
